@@ -60,7 +60,7 @@ func init() {
 		Level: "exploration",
 		Rule: "every value of the pool (every built-in type, zero and non-zero, typed descendants, prototypes, objects with a user-defined B returning true/false/1/nil/a string) as the condition of 19 conditional constructs with marker-printing operands (if/else, if, nested if, guarded return/raise/yield/defer, !, !!, &&, ||, nested and compound forms, conditions built from && / ||); thorough adds every (v, w-truthiness) pair for the nested forms. " +
 			"Oracle: truth(v) := `v.B` is the true singleton; each construct must print exactly the markers and return exactly the operand (Go pointer identity) its documented function of truth(v) prescribes; built-in data values must follow the zero-value table. distinct = distinct (construct, pool value) pairs judged; non-trivial = `v.B` evaluated to a value so truth(v) is defined" +
-			" Added: 31 prop-less descendants (`1.bear`, children of objects with a user B, of prototypes) and values whose B raises (falsy for every construct alike).",
+			" Added: 31 prop-less descendants (`1.bear`, children of objects with a user B, of prototypes) and values whose B raises (falsy for every construct alike). Sixth round: values without any B property (BaseObj-rooted, with and without `_missing`), instances made by `new` of prototypes overriding B.",
 		Assumptions: []string{
 			"truth(v) is taken from the interpreter's own `v.B` (true singleton ⇒ true; anything else ⇒ false), as the statement defines it",
 			"the zero-value table is asserted for plain ints, floats, strs, arrays, objects without user B, maps, nil and booleans only (ranges, funcs, iterators, Either values, prototypes and descendants only take part in the construct-agreement oracle)",
